@@ -332,6 +332,28 @@ theorem C07_split_literals_in_context (e' e : Expr) (h : SplitOf e' e) (hw : wfE
       ∧ joinStr e' = joinStr e :=
   ⟨(joined_splitOf h).1 false none, C07_parse_print e' ((wf_splitOf h).1 hw), joinStr_splitOf h⟩
 
+/-- **A comma-separated expression list at the character level** — the form in which exppp prints the actual parameters of a
+function or procedure call (`STMT_PCALL`), the labels of a case action (`CASEout`) and the references of a UNIQUE rule
+(`ENTITYunique_out`): `EXPR_out( e, 0 )` for each element, `raw( ", " )` between them (`argFrags`).  `C07_safe_fragments_lex`
+instantiated for this printer: from any state satisfying `K`, at every line length, the scanner reads the laid-out list as the
+tokens of its elements separated by commas, and (second part) the text contains no remark opener or closer unless a single token
+does.  Elements as in `lexWF` (no simple string literals). -/
+theorem C07_lex_layout_list_partial (args : Expr) (hw : lexArgs args) (st : PState) (TS : List Tok) (hK : K st TS none) :
+    Lexes (run st (argFrags Shared.clean args true)).text (TS ++ argToks Shared.clean args true)
+      ∧ ((∀ t ∈ argToks Shared.clean args true, hasPair remarkPairs (sp t) = false) → st.text = [] →
+          hasPair remarkPairs (run st (argFrags Shared.clean args true)).text = false) := by
+  obtain ⟨hf, ht⟩ := (annot_eq args).2.1 true hw
+  have hs := (safe_all args).2.1 true none hw (fun _ => rfl) (fun h => by cases h)
+  obtain ⟨h1, h2⟩ := C07_safe_fragments_lex (argA args true) st TS hK hs
+  rw [hf, ht] at h1
+  refine ⟨h1, fun hcl ht0 => ?_⟩
+  rw [← hf]
+  apply h2 _ ht0
+  intro a ha x hx
+  apply hcl
+  rw [← ht]
+  exact List.mem_flatMap.mpr ⟨a, ha, List.mem_map.mpr ⟨x, hx, rfl⟩⟩
+
 /-- grammar token of a punctuation/operator token of the model -/
 def symTokName : Tok → Option String
   | .lp => some "TOK_LEFT_PAREN" | .rp => some "TOK_RIGHT_PAREN" | .lb => some "TOK_LEFT_BRACKET" | .rb => some "TOK_RIGHT_BRACKET"
